@@ -212,6 +212,11 @@ def classify_uses(body, name):
     return uses
 
 
+# (function, element) of a dropped constant whose text is printed back by other means, read one by one
+DROPPED_CONST_OK = {
+}
+
+
 def r52(ctx, fx):
     rid = ctx.rule("R5.2", "in every `map(sequence, closure)` of the parser: an element wrapped in ws/mws (a Located with leading trivia) that is bound by the "
                    "closure is moved whole into the AST, mapped (map/map_into/clone keep the trivia) or has its `.trivia` read — never used through "
@@ -246,6 +251,15 @@ def r52(ctx, fx):
                         e0 = e
                         ok = consumes_nothing(e0) or const_text(e0)
                         ctx.inst(rid, k, sample={"fn": f.path, "element": grammar.short(e)[:60], "bound": "_"})
+                        # constant text that is dropped can only come back from the Display of a syntax-tree node that knows it is there: a closure that drops
+                        # it and hands back plain text / a number has taken it out of the source for good
+                        bty = str(lib.strip(clo["body"]).get("ty", ""))
+                        if ok and const_text(e0) and not consumes_nothing(e0) and bty and "mos_core::" not in bty and "LocatedSpan" not in bty:
+                            ctx.inst(rid, k + "|dropped-constant", sample={"fn": f.path, "element": grammar.short(e)[:60], "closure_yields": bty[:80]})
+                            if (f.path, grammar.short(e)[:40]) not in DROPPED_CONST_OK:
+                                ctx.finding(rid, k + "|dropped-constant", "%s drops the text matched by `%s` and hands back a `%s`, not a syntax-tree node: nothing that is "
+                                            "printed later knows the text was there, the source is accepted without a diagnostic and not reproduced" % (
+                                                f.path.rsplit("::", 1)[1], grammar.short(e)[:60], bty[:60]), "%s:%s" % (f.file, clo.get("ln")))
                         if not ok:
                             ctx.finding(rid, k, "the text matched by `%s` in %s is bound to `_` and dropped from the syntax tree" % (
                                 grammar.short(e)[:60], f.path.rsplit("::", 1)[1]), "%s:%s" % (f.file, clo.get("ln")))
